@@ -27,6 +27,30 @@ def bits_case(rnd, cid, small):
     return progs.Case(cid, cfg, ins, {"shape": "bits", "op": "to_bits", "kinds": "L", "abc": (v, n, 0), "width": n})
 
 
+def bits_twice_case(rnd, cid):
+    """two decompositions of the SAME object at different widths (state carried on the object must not leak)"""
+    bl = rnd.choice([8, 16])
+    n1 = rnd.choice([None, 6, 8, bl]); w1 = bl if n1 is None else n1
+    n2 = rnd.randrange(1, w1 + 2)
+    v = rnd.choice([(1 << n2) - 1, 1 << n2, (1 << n2) + 1, rnd.randrange(0, 1 << w1)])
+    v = min(v, (1 << w1) - 1)
+    cfg = {"p": common.BN128, "bl": bl, "res": 0, "ign": 0}
+    ins = [progs.lit_int(v), "mk priv r0"]
+    first = rnd.choice(["to_bits", "rshift", "and", "to_bits"])
+    if first == "to_bits" and n1 is not None:
+        ins += [progs.lit_int(n1), "call to_bits r1 r2"]
+    elif first == "rshift":
+        ins += [progs.lit_int(1), "bin rshift r1 r2"]; w1 = bl
+    elif first == "and":
+        ins += ["lit n", "bin and r1 r1"]; w1 = bl
+    else:
+        ins += ["lit n", "call to_bits r1"]; w1 = bl
+    if v >= (1 << w1):
+        v = (1 << w1) - 1; ins[0] = progs.lit_int(v)
+    ins += [progs.lit_int(n2), "call to_bits r1 r4", "call from_bits r5", "call val r6"]
+    return progs.Case(cid, cfg, ins, {"shape": "bits-twice", "op": first, "kinds": "L", "abc": (v, n2, 0), "width": n2})
+
+
 def gen_schema(rnd, depth=0):
     c = rnd.random()
     if depth >= 2 or c < 0.45:
@@ -54,6 +78,32 @@ def out_of_range(s, v):
     return any(out_of_range(s[1], y) for y in v)
 
 
+def schema_str(s):
+    if s[0] == "B": return "B"
+    if s[0] == "M": return f"M{s[1]}"
+    if s[0] == "L": return "L(" + ",".join(schema_str(x) for x in s[1]) + ")"
+    return f"R{s[2]}({schema_str(s[1])})"
+
+
+def value_str(s, v, mode):
+    if s[0] == "B":
+        return f"i:{v}" if mode == "plain" else (f"B:{v}" if mode == "secret:bool" else f"L:{v}")
+    if s[0] == "M":
+        return f"i:{v}" if mode == "plain" else f"L:{v}"
+    if s[0] == "L":
+        return "[" + ",".join(value_str(x, y, mode) for x, y in zip(s[1], v)) + "]"
+    return "[" + ",".join(value_str(s[1], y, mode) for y in v) + "]"
+
+
+def plain_of_valstr(t):
+    """model register string -> nested plain ints"""
+    from .. import ref
+    def conv(x):
+        if x[0] in ("list", "tuple"): return [conv(y[0]) for y in x[1]]
+        return x[1]
+    return conv(ref.parse_val(t)[0])
+
+
 def has(s, tag):
     return tag in json.dumps(s)
 
@@ -73,6 +123,25 @@ def explore(ctx, extended=False, focus=None):
                "booleans as PrivVal and as PrivValBool); distinct = distinct (schema, value, mode) / (width, value, bitlength)")
     n = ctx.n(250, 6000) * (2 if extended else 1)
     cases = corpus_cases("C16") + [bits_case(ctx.rnd, f"c16_{i}", small=False) for i in range(n)]
+    twice = [bits_twice_case(ctx.rnd, f"c16t_{i}") for i in range(n // 2)]
+    for r in execute_all(twice):
+        account(ex, r); correspond(ex, r, LEVELS)
+        v, w, _ = r.case.meta["abc"]
+        ex.distinct.add(("bits-twice", r.case.meta["op"], w, v, r.case.cfg["bl"]))
+        inside = 0 <= v < (1 << w)
+        second = 5
+        if r.ok and not inside:
+            ex.violations.append(Violation({"op": "to_bits", "dev": "accepts-value-out-of-range", "history": "second-decomposition"},
+                                           f"after a first decomposition, to_bits({w}) accepts {v}", {"case": r.case.line()}))
+        if inside and not r.ok and r.errpos == second:
+            ex.violations.append(Violation({"op": "to_bits", "dev": "rejects-value-in-range", "history": "second-decomposition"},
+                                           f"after a first decomposition, to_bits({w}) of {v} raises {r.errcls}", {"case": r.case.line()}))
+        if inside and r.ok and (r.regs[5].count("B:") != w or r.regs[7] != f"I:{v}"):
+            ex.violations.append(Violation({"op": "to_bits", "dev": "round-trip", "history": "second-decomposition"},
+                                           f"second decomposition at width {w} of {v}: {r.regs[5].count('B:')} bits, recomposed {r.regs[7]}", {"case": r.case.line()}))
+        if inside and r.ok and r.nc[5][0] - r.nc[4][0] != w + 1:
+            ex.violations.append(Violation({"op": "to_bits", "dev": "constraints-missing", "history": "second-decomposition"},
+                                           f"second decomposition at width {w} emitted {r.nc[5][0] - r.nc[4][0]} constraints, expected {w + 1}", {"case": r.case.line()}))
     for r in execute_all(cases):
         account(ex, r); correspond(ex, r, LEVELS)
         v, w, _ = r.case.meta.get("abc", (0, 0, 0))
@@ -110,8 +179,29 @@ def explore(ctx, extended=False, focus=None):
         bad = mode == "plain-bad" and has(s, '"M"')
         val = gen_value(ctx.rnd, s, bad)
         jobs.append({"schema": s, "value": val, "mode": "plain" if mode.startswith("plain") else mode, "bad": out_of_range(s, val)})
-    outs = common.run_workers([f"K|k{i}|{ctx.rnd.choice([8, 16, 32])}|{json.dumps(j)}" for i, j in enumerate(jobs)], script="worker_pack.py")
-    for j, o in zip(jobs, outs):
+    bls = [ctx.rnd.choice([8, 16, 32]) for _ in jobs]
+    outs = common.run_workers([f"K|k{i}|{bl}|{json.dumps(j)}" for i, (j, bl) in enumerate(zip(jobs, bls))], script="worker_pack.py")
+    mlines = common.lean_driver([f"K|k{i}|{bl}|{schema_str(j['schema'])}|{value_str(j['schema'], j['value'], j['mode'])}"
+                                 for i, (j, bl) in enumerate(zip(jobs, bls))])
+    for j, o, m in zip(jobs, outs, mlines):
+        # model correspondence: status class, bit length, bit values, unpacked values, number of constraints
+        dd = json.loads(o.split("|", 1)[1]) if "harness-error" not in o else {}
+        mf = m.split("|")
+        if dd:
+            if "UNMODELLED" in m:
+                ex.unmodelled += 1
+            else:
+                impl_status = "ok" if dd.get("pack") == "ok" and dd.get("unpack") == "ok" else "err:" + (dd.get("pack") if dd.get("pack") != "ok" else dd.get("unpack"))
+                agree = mf[1] == impl_status and int(mf[2]) == dd["bitlen"]
+                if agree and mf[1] == "ok":
+                    try:
+                        agree = plain_of_valstr(mf[3]) == dd["bits"] and plain_of_valstr(mf[4]) == dd["back"] and int(mf[5].split("=")[1]) == dd["ncons"]
+                    except Exception:
+                        agree = False
+                if not agree:
+                    ex.disagreements.append({"job": j, "impl": {k: dd.get(k) for k in ("pack", "unpack", "bitlen", "bits", "back", "ncons")}, "model": m[:300]})
+                else:
+                    ex.traces_validated += 1
         ex.evaluations += 1
         d = json.loads(o.split("|", 1)[1])
         if "harness-error" in d:
